@@ -26,28 +26,66 @@ import (
 //	driver: t=offer a tick  v=idle period (virtual clock +11 intervals)  f  w  y
 type c16Scenario struct {
 	Cfg    c16Cfg   `json:"cfg"`
+	Sizes  string   `json:"sizes,omitempty"` // chunk: how task sizes are drawn (see c16Size)
+	Salt   int      `json:"salt,omitempty"`
 	Slow   int      `json:"slow"`  // the execute callback yields this many times
 	Procs  int      `json:"procs"` // GOMAXPROCS
 	Adders []string `json:"adders"`
 	Driver string   `json:"driver"`
 }
 
-func c16Size(a, s int) int { return 1 + (a*7+s*3)%4 }
+// c16Size is the declared byte size of adder a's s-th task, a pure function of the
+// scenario (replayable). Modes:
+//
+//	small     1..4 (many tasks per batch)
+//	boundary  one of 0, 1, limit-1, limit, limit+1, 2*limit+3
+//	zeros     always 0: such tasks never reach the byte threshold by themselves, whole
+//	          batches consist of size-0 tasks and only tick / Flush / Wait / retirement run them
+//	zeroish   0, with roughly every fifth task of size limit (closes a batch of zeros)
+func c16Size(mode string, salt, limit, a, s int) int {
+	h := (a*7919 + s*104729 + salt*31) & 0x7fffffff
+	h ^= h >> 7
+	switch mode {
+	case "boundary":
+		v := []int{0, 1, limit - 1, limit, limit + 1, 2*limit + 3}[h%6]
+		if v < 0 {
+			v = 0
+		}
+		return v
+	case "zeros":
+		return 0
+	case "zeroish":
+		if h%5 == 0 {
+			return limit
+		}
+		return 0
+	}
+	return 1 + h%4
+}
 
 func c16Gen(r *rand.Rand, idx int) c16Scenario {
 	sc := c16Scenario{Slow: r.Intn(3), Procs: []int{2, 4, 8, 16}[(idx/40)%4]}
+	// thresholds include the boundary values: 1 (every Add hands a batch over), the
+	// default-sized ones that a scenario never reaches (1000 tasks / 1 MiB: only tick,
+	// Flush, Wait and retirement flush) and, for the bare periodical executor, a container
+	// whose AddTask never asks for a flush (N = 0)
 	switch r.Intn(3) {
 	case 0:
-		sc.Cfg = c16Cfg{Kind: "bulk", N: 1 + r.Intn(5)}
+		sc.Cfg = c16Cfg{Kind: "bulk", N: []int{1, 1, 2, 3, 4, 5, 8, defaultBulkTasks}[r.Intn(8)]}
 	case 1:
-		sc.Cfg = c16Cfg{Kind: "chunk", N: 2 + r.Intn(9)}
+		sc.Cfg = c16Cfg{Kind: "chunk", N: []int{1, 2, 3, 4, 5, 6, 8, 10, defaultChunkSize}[r.Intn(9)]}
+		sc.Sizes = []string{"small", "small", "boundary", "boundary", "zeros", "zeroish"}[r.Intn(6)]
+		sc.Salt = r.Intn(1000)
 	default:
-		sc.Cfg = c16Cfg{Kind: "periodical", N: 1 + r.Intn(5)}
+		sc.Cfg = c16Cfg{Kind: "periodical", N: []int{0, 1, 1, 2, 3, 4, 5}[r.Intn(7)]}
 	}
 	adders := 1 + r.Intn(8)
 	for a := 0; a < adders; a++ {
 		var sb strings.Builder
-		for i, n := 0, 1+r.Intn(12); i < n; i++ {
+		if r.Intn(10) == 0 {
+			sb.WriteByte("wf"[r.Intn(2)]) // Wait / Flush before the first Add
+		}
+		for i, n := 0, r.Intn(13); i < n; i++ {
 			sb.WriteByte('a')
 			switch x := r.Intn(100); {
 			case x < 15:
@@ -88,7 +126,7 @@ type c16Actor struct {
 	ticks [2]int
 }
 
-func (ac *c16Actor) run(s *c16Sys, progress *int64) {
+func (ac *c16Actor) run(s *c16Sys, sc *c16Scenario, progress *int64) {
 	seq := 0
 	for i := 0; i < len(ac.prog); i++ {
 		c := ac.prog[i]
@@ -98,7 +136,7 @@ func (ac *c16Actor) run(s *c16Sys, progress *int64) {
 			seq++
 			t := c16Task{A: ac.id, S: seq}
 			if s.cfg.Kind == "chunk" {
-				t.Size = c16Size(ac.id, seq)
+				t.Size = c16Size(sc.Sizes, sc.Salt, sc.Cfg.N, ac.id, seq)
 			}
 			ac.adds = append(ac.adds, c16Add{task: t, begin: vk.Seq()})
 			s.addFn(t)
@@ -151,7 +189,7 @@ func c16RunScenario(m *vk.M, idx int, sc c16Scenario) (st c16Stats, ok bool) {
 		go func(ac *c16Actor) {
 			defer wg.Done()
 			<-start
-			ac.run(s, &progress)
+			ac.run(s, &sc, &progress)
 		}(ac)
 	}
 	close(start)
@@ -202,6 +240,22 @@ func c16RunScenario(m *vk.M, idx int, sc c16Scenario) (st c16Stats, ok bool) {
 	quit := s.retire()
 	_, stopped := s.tks.counts()
 	m.Count("adds", int64(len(all)))
+	if sc.Cfg.Kind == "chunk" {
+		for _, t := range all {
+			switch {
+			case t.Size == 0:
+				m.Count("chunk_tasks_size_0", 1)
+			case t.Size < sc.Cfg.N:
+				m.Count("chunk_tasks_size_below_limit", 1)
+			case t.Size == sc.Cfg.N:
+				m.Count("chunk_tasks_size_eq_limit", 1)
+			default:
+				m.Count("chunk_tasks_size_above_limit", 1)
+			}
+		}
+		m.Count("chunk_batches_of_only_size_0_tasks", int64(st.zeroBatches))
+	}
+	m.Count("scenarios_"+sc.Cfg.Kind+"_threshold_"+c16ThresholdClass(sc.Cfg), 1)
 	m.Count("waits", int64(len(waits)))
 	m.Count("ticks_delivered", int64(actors[0].ticks[0]))
 	m.Count("ticks_dropped", int64(actors[0].ticks[1]))
@@ -245,8 +299,9 @@ func c16Stress(t *testing.T, m *vk.M, n int) {
 			break
 		}
 		orders[st.order] = struct{}{}
-		nontrivial := st.tasks > 0 && st.byTrigger["threshold"]+st.byTrigger["tick"]+st.byTrigger["quit"] > 0
-		m.Case(vk.Digest(sc.Cfg, sc.Adders, sc.Driver, st.order), nontrivial)
+		// (scenarios whose threshold is out of reach are flushed by tick/Flush/Wait/retirement only)
+		nontrivial := st.tasks > 0 && (st.byTrigger["threshold"]+st.byTrigger["tick"]+st.byTrigger["quit"] > 0 || c16ThresholdClass(sc.Cfg) == "unreachable")
+		m.Case(vk.Digest(sc.Cfg, sc.Sizes, sc.Salt, sc.Adders, sc.Driver, st.order), nontrivial)
 		if m.WantSample() && (idx%97 == 1 || m.ViolCount() > v0) {
 			m.Sample(map[string]any{"scenario": sc, "tasks_executed": st.tasks, "batches_by_trigger": st.byTrigger,
 				"batch_order(T=threshold t=tick q=quit f=flush w=wait,size)": st.order, "wait_task_pairs_checked": st.waitsChecked})
@@ -258,7 +313,7 @@ func c16Stress(t *testing.T, m *vk.M, n int) {
 	m.Extra("distinct_observed_batch_orders", len(orders))
 }
 
-const c16StressRule = "seeded random interleavings: 1-8 adder goroutines (programs of Add/Wait/Flush/yield) against a driver goroutine (tick offers, idle periods on the virtual clock, Flush, Wait) on bulk (1-5 tasks), chunk (2-10 bytes, task sizes 1-4) and bare periodical (typed container, 1-5 tasks) executors, GOMAXPROCS 2/4/8/16; oracle on stamps of one atomic sequence: exactly once, order inside batches, bulk/chunk bounds, Wait-after-Add; non-trivial = at least one batch flushed by threshold, tick or flusher retirement"
+const c16StressRule = "seeded random interleavings: 1-8 adder goroutines (programs of Add/Wait/Flush/yield) against a driver goroutine (tick offers, idle periods on the virtual clock, Flush, Wait) on bulk (1-8 or 1000 tasks), chunk (1-10 bytes or 1 MiB; task sizes small 1-4 / boundary 0,1,limit-1,limit,limit+1,2*limit+3 / all 0 / mostly 0) and bare periodical (typed container, 1-5 tasks or never asking for a flush) executors, GOMAXPROCS 2/4/8/16; oracle on stamps of one atomic sequence: exactly once, order inside batches, bulk/chunk bounds, Wait-after-Add; non-trivial = at least one batch flushed by threshold, tick or flusher retirement"
 
 // TestVerifC16Mix: plain build.
 func TestVerifC16Mix(t *testing.T) {
